@@ -56,8 +56,28 @@ fn run_chunked(bytes: &[u8], n: usize) -> String {
     }
 }
 
+fn parse_rows(t: &str) -> Option<Vec<Vec<(Fr, usize)>>> {
+    if t == "-" { return Some(vec![]); }
+    t.split(';').map(|r| if r == "_" { Some(vec![]) } else {
+        r.split(',').map(|e| { let (c, i) = e.split_once(':')?; Some((parse_fr(c)?, parse_usize(i)?)) }).collect::<Option<Vec<_>>>()
+    }).collect()
+}
+
 pub fn exec(w: &[&str]) -> Option<String> {
     match (w[0], w.len()) {
+        // qap <A rows> <B rows> <num_inputs> <num_constraints> <assignment>: the snarkjs-compatible witness map on small matrices
+        ("qap", 6) => {
+            use ark_groth16::r1cs_to_qap::R1CSToQAP;
+            let a = parse_rows(w[1])?; let b = parse_rows(w[2])?;
+            let ni = parse_usize(w[3])?; let nc = parse_usize(w[4])?;
+            let asg: Vec<Fr> = if w[5] == "-" { vec![] } else { w[5].split(',').map(parse_fr).collect::<Option<_>>()? };
+            let m = ConstraintMatrices::<Fr> { num_instance_variables: ni, num_witness_variables: asg.len().saturating_sub(ni), num_constraints: nc,
+                a_num_non_zero: a.iter().map(|r| r.len()).sum(), b_num_non_zero: b.iter().map(|r| r.len()).sum(), c_num_non_zero: 0, a, b, c: vec![] };
+            Some(match rln::circuit::qap::CircomReduction::witness_map_from_matrices::<Fr, ark_poly::GeneralEvaluationDomain<Fr>>(&m, ni, nc, &asg) {
+                Ok(h) => h.iter().map(fr_hex).collect::<Vec<_>>().join(","),
+                Err(_) => "err".into(),
+            })
+        }
         ("zkey", 2) => Some(run(&parse_bytes(w[1])?)),
         ("zkeyfile", 2) => Some(run(&std::fs::read(w[1]).ok()?)),
         // the same through a reader that delivers at most n bytes per read() call, and through BufReader<File>
